@@ -7,7 +7,7 @@ use vcore::enumr;
 
 fn explore(ctx: &mut Ctx) {
     // (a) every vector over the full alphabet 0..2^w, length 0..=L
-    let scopes: Vec<(usize, usize)> = if ctx.tier.is_thorough() { vec![(1, 12), (2, 7), (3, 5), (4, 4)] } else { vec![(1, 8), (2, 5), (3, 4), (4, 3)] };
+    let scopes: Vec<(usize, usize)> = if ctx.tier.is_thorough() { vec![(1, 13), (2, 8), (3, 5), (4, 5), (5, 3)] } else { vec![(1, 8), (2, 5), (3, 4), (4, 3)] };
     for &(w, l) in &scopes {
         enumr::words(1 << w, l, |word| {
             let c = Case { values: word.iter().map(|&x| x as u64).collect() };
